@@ -12,7 +12,7 @@ be written through a root (the property excludes it).
   copy i                   roots.append(roots[i].copy())            `copyCall` under the resolved table
   write i p d              o<p>[...] = d                            in-place write into an ndarray / sparse
   putFresh i p x frag      o<p>.x = <freshly built object graph>    `pc.points = arr` (`_from_vector_inplace`),
-                                                                    `set_h_matrix`, `set_target(new_pc)` (the new
+                                                                    `_set_h_matrix`,  `set_target(new_pc)` (the new
                                                                     target and the re-fitted arrays), the lazily
                                                                     created `LandmarkManager` of `.landmarks`
   putImm i p x             o<p>.x = None / a number / a string      caches reset, counters, flags
